@@ -34,7 +34,18 @@ def find_map_closure(facts, fn):
             d = fn.def_rvalue(l)
             if d and d[0] == "rv" and d[1]["k"] == "agg" and d[1].get("akind") == "closure":
                 return facts.bodies.get(d[1]["name"]), s
+        # `.map(sanitize_char)`: a named function handed over as the mapping
+        for a in s.node["args"][1:]:
+            a = fn.resolve_copy(a)
+            if a.get("k") == "const" and a.get("fn"):
+                hb = facts.bodies.get(a["fn"]) or next((bb_ for nn, bb_ in facts.bodies.items() if strip_generics(nn) == strip_generics(str(a["fn"])) or nn.endswith("::" + str(a["fn"]).split("::")[-1])), None)
+                if hb is not None and hb.arg_count == 1 and hb.local_ty(1) == "char":
+                    _FN_MAPPERS.add(hb.name)
+                    return hb, s
     return None, None
+
+
+_FN_MAPPERS = set()
 
 
 def trim_set_of(facts, fn, trim_site):
@@ -110,10 +121,30 @@ def find_push_loop(ctx, facts, fn, F):
     if not inits or not all(re.search(r"String::(new|with_capacity)$", i_) for i_ in inits) or others:
         ctx.violate("C14.1", F, "loop-result-has-other-writers", fn.relfile, push.line, "the sanitised string is also written outside the per-character push (initialised by %s, %d other writer(s))" % (inits, len(others)))
         return None
-    try:
-        img = char_region_image(fn, some_edge[1], lambda a: {N: {"__discr": 1, "0": a}, 1: ("key",)}, r"String::push$")
-    except Undecided as e:
-        ctx.violate("C14.1", F, "closure-undecided", fn.relfile, push.line, "the sanitising loop body cannot be interpreted over the char partition (%s): fail closed" % e)
+    # flags carried round the loop (`only_filler = only_filler && ..`) are read before the push: the mapping is evaluated for
+    # each value of such a bool, and must not depend on it
+    carried = {}
+    img = None
+    for _ in range(4):
+        combos = [dict()]
+        for l_ in carried:
+            combos = [dict(list(c_.items()) + [(l_, v_)]) for c_ in combos for v_ in (False, True)]
+        try:
+            imgs = [char_region_image(fn, some_edge[1], lambda a, c_=c_: dict([(N, {"__discr": 1, "0": a}), (1, ("key",))] + list(c_.items())), r"String::push$") for c_ in combos]
+        except Undecided as e:
+            m_ = re.search(r"read of unset local _(\d+)", str(e))
+            if m_ and fn.local_ty(int(m_.group(1))) == "bool" and int(m_.group(1)) not in carried and len(carried) < 3:
+                carried[int(m_.group(1))] = True
+                continue
+            ctx.violate("C14.1", F, "closure-undecided", fn.relfile, push.line, "the sanitising loop body cannot be interpreted over the char partition (%s): fail closed" % e)
+            return None
+        if any(i_ != imgs[0] for i_ in imgs[1:]):
+            ctx.violate("C14.1", F, "closure-undecided", fn.relfile, push.line, "what the loop pushes for a character depends on a flag carried from earlier characters: fail closed")
+            return None
+        img = imgs[0]
+        break
+    if img is None:
+        ctx.violate("C14.1", F, "closure-undecided", fn.relfile, push.line, "the sanitising loop body cannot be interpreted over the char partition: fail closed")
         return None
     ctx.ok("C14.1", F, "the sanitiser is a loop over key.chars() that pushes one mapped character per input character into the returned string", fn.relfile, push.line)
     return img
@@ -172,7 +203,7 @@ def check_sanitizer(ctx, facts, fn_name="wal::config::sanitize_namespace"):
             else:
                 ctx.ok("C14.1", F, "collect() is fed by the mapped iterator", fn.relfile, s.line)
         try:
-            img = char_closure_image(clo)
+            img = char_closure_image(clo, 1 if clo.name in _FN_MAPPERS else 2)
         except Undecided as e:
             ctx.violate("C14.1", F, "closure-undecided", clo.relfile, clo.line, "sanitizer closure cannot be interpreted over the char partition (%s): fail closed" % e)
             return
@@ -573,6 +604,9 @@ def _is_key_presence(facts, body, l, depth=0):
             l = q["l"] if q is not None and not q["p"] else None
         elif sd is not None and sd[1] == "assign" and sd[2]["rv"]["k"] == "ref" and not sd[2]["rv"]["place"]["p"]:
             l = sd[2]["rv"]["place"]["l"]     # a borrow of the Option (`key.as_deref()`)
+        elif sd is not None and sd[1] == "assign" and sd[2]["rv"]["k"] == "agg" and sd[2]["rv"].get("akind") == "adt" and sd[2]["rv"].get("variant") == "Some" \
+                and str(sd[2]["rv"].get("name", "")).startswith("std::option::Option"):
+            return True     # `helper(dir, Some(key))` inlined: a key is always supplied here, the other arm cannot be taken
         else:
             l = None
     return False
